@@ -1,0 +1,29 @@
+//go:build verif
+
+package magic
+
+// Verification hooks (build tag "verif").
+
+// VerifZipContains exposes zipContains.
+func VerifZipContains(raw, sig []byte, msoCheck bool) bool { return zipContains(raw, sig, msoCheck) }
+
+// VerifTarParseOctal exposes tarParseOctal.
+func VerifTarParseOctal(b []byte) int64 { return tarParseOctal(b) }
+
+// VerifTarChksum exposes tarChksum.
+func VerifTarChksum(b []byte) (int64, int64) { return tarChksum(b) }
+
+// VerifDropLastLine exposes dropLastLine.
+func VerifDropLastLine(b []byte, readLimit uint32) []byte { return dropLastLine(b, readLimit) }
+
+// VerifMatchOleClsid exposes matchOleClsid.
+func VerifMatchOleClsid(in, clsid []byte) bool { return matchOleClsid(in, clsid) }
+
+// VerifScanLine exposes scanLine.
+func VerifScanLine(b []byte) ([]byte, []byte) { return scanLine(b) }
+
+// VerifSv exposes sv.
+func VerifSv(in []byte, comma rune, limit uint32) bool { return sv(in, comma, limit) }
+
+// VerifTrimLWS exposes trimLWS.
+func VerifTrimLWS(in []byte) []byte { return trimLWS(in) }
